@@ -365,4 +365,32 @@ theorem onePass_numEvents (c : Cfg) (hd : c.doTimeFrame = false) (endT : Int) (h
         rw [this.1]
         cases contribution c ev <;> simp
 
+/-! ### the batch sizes are not looked at when reading once -/
+
+/-- reading once does not look at the batch sizes -/
+theorem onePass_congr (c c' : Cfg) (h1 : c'.tpl = c.tpl) (h2 : c'.doTimeFrame = c.doTimeFrame)
+    (h3 : c'.storePrompts = c.storePrompts) (h4 : c'.delayedIncrement = c.delayedIncrement) (e : Int)
+    (recs : List Record) : ∀ more cur, onePass c' e more cur recs = onePass c e more cur recs := by
+  have hinc : ∀ ev, eventIncrement c' ev = eventIncrement c ev := by
+    intro ev; simp [eventIncrement, h3, h4]
+  induction recs with
+  | nil => intro _ _; rfl
+  | cons r rs ih =>
+    intro more cur
+    cases r with
+    | time t => rw [onePass, onePass]; simp only [h2, ih]
+    | event ev => rw [onePass, onePass]; simp only [h1, h2, hinc, ih]
+
+theorem onePassFrames_congr (c c' : Cfg) (h1 : c'.tpl = c.tpl) (h2 : c'.doTimeFrame = c.doTimeFrame)
+    (h3 : c'.storePrompts = c.storePrompts) (h4 : c'.delayedIncrement = c.delayedIncrement)
+    (h5 : c'.numEventsToStore = c.numEventsToStore) (fs : List (Int × Int)) :
+    ∀ cur recs, onePassFrames c' fs cur recs = onePassFrames c fs cur recs := by
+  induction fs with
+  | nil => intro _ _; rfl
+  | cons f fs ih =>
+    obtain ⟨s, e⟩ := f
+    intro cur recs
+    simp only [onePassFrames, onePass_congr c c' h1 h2 h3 h4, h2, h5, ih]
+
+
 end StirVerif.C14
